@@ -72,6 +72,7 @@ pub fn run(ctx: &Ctx, rep: &mut Report) {
         let proxy = u.env.register(Proxy, ());
         u.skip_events();
         let mut window = false;
+        let unknown_fns = unknown_entry_points("axelar-gateway", &["__constructor", "approve_messages", "call_contract", "epoch", "epoch_by_signers_hash", "is_message_approved", "is_message_executed", "message_approval", "message_approval_by_key", "message_approval_hash", "rotate_signers", "run_migration", "signers_hash_by_epoch", "validate_message", "validate_proof", "domain_separator", "minimum_rotation_delay", "previous_signers_retention", "gateway", "owner", "operator", "upgrade", "migrate", "version", "transfer_ownership", "transfer_operatorship"]);
         for _ in 0..14 {
             // now and then the gateway is upgraded to the same code; the migration follows a few calls
             // later. While the window is open a valid call may be refused; one that succeeds must be
@@ -113,6 +114,33 @@ pub fn run(ctx: &Ctx, rep: &mut Report) {
                     flat(pc.try_fwd(&gaddr, &Symbol::new(env, "call_contract"), &args)).map(|_| ())
                 }
             };
+            // entry points of the gateway this workload does not know: called in the sender's name
+            // toward (chain, address) without any authorisation, and on the sender's authorisation
+            // recorded for the same entry point toward another destination. Neither may announce a
+            // call in the sender's name.
+            for name in &unknown_fns {
+                let mk = |c: Vec<u8>, a: Vec<u8>| {
+                    let (ga, n, usr, p) = (gaddr.clone(), name.clone(), user.clone(), payload.clone());
+                    move |env: &Env| {
+                        let args: SVec<Val> = (usr.clone(), sstr(env, &c), sstr(env, &a), sbytes(env, &p)).into_val(env);
+                        flat(env.try_invoke_contract::<Val, soroban_sdk::Error>(&ga, &Symbol::new(env, &n), args)).map(|_| ())
+                    }
+                };
+                let (mut c9, mut a9) = (dchain.clone(), daddr.clone());
+                c9.push(b'9');
+                a9.push(b'9');
+                let (_, forest) = u.record(&mk(c9, a9));
+                let h = sc_addr(&user);
+                let own_for_other: Vec<_> = forest.into_iter().filter(|(x, _)| *x == h).collect();
+                for (how, auth) in [("no-authorisation", Auth::Nobody), ("authorisation-for-another-destination", Auth::Forest(own_for_other))] {
+                    let o = u.call(auth, &mk(dchain.clone(), daddr.clone()));
+                    rep.count("unknown-entry-point-tried");
+                    let announced = o.events.iter().any(|e| e.contract == g.sc && e.kind() == "contract_called" && e.topics.get(1) == Some(&sv_addr(&sc_addr(&user))));
+                    if o.ok() && announced {
+                        rep.violation(&format!("unknown-entry-point-announces-for-the-sender:{}", how), format!("entry point {} announced a call in the sender's name with {}", name, how));
+                    }
+                }
+            }
             let (o, sender_sc, must_ok) = match sender_class {
                 "account" => (u.call(Auth::AsRecorded, &direct), sc_addr(&user), true),
                 "account-no-auth" => (u.call(Auth::Nobody, &direct), sc_addr(&user), false),
